@@ -4,8 +4,8 @@ NOTES = (
     "All checks are static analysis of /repo's current source (python ast; no odc-geo code is imported or run; rule R-API "
     "additionally looks up names in the third-party libraries installed in /venv). Each claim lists the structural clauses it "
     "decides; each clause is a necessary condition of the property, not the behaviour itself. Exit 1 + VIOLATION names rule, "
-    "construct id and file:line; exit 2 + ANALYSIS-ERROR means the analysis cannot stand behind a verdict (vanished anchor, "
-    "instance floor missed). Known findings are in known_findings.json. See DESIGN.md."
+    "construct id and file:line; exit 2 + ANALYSIS-ERROR means the analysis as a whole cannot stand behind a verdict (instance floor missed, "
+    "positive control silent, internal error); a single clause that does not find its subject construct prints UNDECIDED and does not fail the check. Known findings are in known_findings.json. See DESIGN.md."
 )
 
 _NOTE = (
@@ -182,12 +182,31 @@ _GENERIC = (
     "outside odc.geo.math (R-REMAINDER), no caller tolerance through math.isclose's default rel_tol (R-TOL), no single-precision coordinates on the planning path "
     "(R-PRECISION), no signed resolution inside max()/min() (R-SIGNMAG), no optional divisor that may be 0 (R-ZERODIV), no vertex-only projection of a covering region "
     "(R-DENSIFY), no while loop stepping by an unchecked parameter (R-TERMINATION), no int-only index test (R-INTIDX), no assert against the own annotation (R-ANNOT), no negation / in-place update of an integer or step parameter in the caller's numeric type (R-NUMNORM), "
-    "no isinstance(param, int/float) dispatch (R-ISNUM); "
-    "zero-count rules are re-armed on every run by in-memory positive controls."
+    "no isinstance(param, int/float) dispatch (R-ISNUM), no membership test against a literal holding None and a bool (R-INFALSE: 0 == False), "
+    "no lock.acquire(timeout=..) whose result is not tested before the protected work (R-ACQUIRE), no box mapped through two opposite corners only off an axis-aligned path (R-TWOCORNER); "
+    "zero-count rules are re-armed on every run by in-memory positive controls. "
+    "A clause reports a violation only on positive evidence (a construct that is present and wrong); a clause whose subject construct is absent or spelled in a form it does not read "
+    "is UNDECIDED on that tree (printed, listed in coverage.undecided, exit 0 unless a rule family falls below its instance floor): verified silent on 140 independently written "
+    "behaviour-preserving refactors (refactors/, DESIGN section 9)."
 )
+ROUND6_ALSO = {
+    "C01": " Round 6: keyword operands the shapely wrapper unwraps take part in the CRS comparison; whole-stream guard idioms (any/all/next over a generator) and map(partial(guard)) delegation are read; a fold that stops before later operands are checked is reported.",
+    "C02": " Round 6: a lazily computed field (_extent) is never written on an object other than self.",
+    "C03": " Round 6: ROI-order return summaries (roi_center / roi_shape are (row, col)); the read shrink _can_paste validates comes from _pick_read_scale.",
+    "C07": " Round 6: no vertex-dropping call (simplify, remove_repeated_points, set_precision) on the to_crs path.",
+    "C08": " Round 6: zoom_to hands the requested resolution to from_bbox unchanged (not re-signed); every anchored return of snap_grid takes its origin from the snapping helper.",
+    "C09": " Round 6: affine_from_axis does not snap / round what it recovered from the labels.",
+    "C10": " Round 6: the read shrink _can_paste validates comes from _pick_read_scale, as the one compute_reproject_roi reports.",
+    "C11": " Round 6: max()/min() over signed resolution components unpacked into locals (footprint sampling step).",
+    "C12": " Round 6: no query box mapped into the pixel plane through two opposite corners only (R-TWOCORNER).",
+    "C15": " Round 6: option filters never test membership in (None, False) (nodata=0); default creation options never switch tiling off.",
+    "C16": " Round 6: an n-ary intersection that stops folding early still checks every operand's grid and CRS.",
+    "C18": " Round 6: a distributed lock taken with a timeout is held before the critical section runs (R-ACQUIRE).",
+    "C20": " Round 6: every anchored return of snap_grid takes its origin from the snapping helper.",
+}
 for _k, _c in CLAIMS.items():
     _c["note"] = _NOTE
     _u = _c["text"].index(_D)
-    _c["text"] = _c["text"][:_u] + "Also: " + ALSO[_k] + _GENERIC + " " + _c["text"][_u:]
+    _c["text"] = _c["text"][:_u] + "Also: " + ALSO[_k] + ROUND6_ALSO.get(_k, "") + _GENERIC + " " + _c["text"][_u:]
 
 NOT_APPLICABLE = {}
